@@ -659,9 +659,9 @@ def harnesses(tier):
     hs.append(Harness("bsta.2d.2", h_bsta_nd, {"d": 2, "npts": 2}, max_paths=4000, batch=1))
     if not q:
         hs.append(Harness("bsta.3d.1", h_bsta_nd, {"d": 3, "npts": 1}, max_paths=4000, batch=1))
+    hs.append(Harness("copula.3d.1", h_copula, {"d": 3, "npts": 1}, max_paths=20000))  # 3-d: the sub-margins over two of three coordinates
     if not q:
         hs.append(Harness("copula.2d.2", h_copula, {"d": 2, "npts": 2}, max_paths=20000))
-        hs.append(Harness("copula.3d.1", h_copula, {"d": 3, "npts": 1}, max_paths=20000))
     hs.append(Harness("twin", h_twin, twin="must_fail"))
     return hs
 
